@@ -65,7 +65,7 @@ class S:
 LOCS = "INTERFACE | UNION | SCALAR | OBJECT | INPUT_OBJECT | INPUT_FIELD_DEFINITION | ARGUMENT_DEFINITION | FIELD_DEFINITION | FIELD | ENUM | ENUM_VALUE"
 NAMES = ["t1", "t2", "t3"]
 # tags per element and position (two digits: element, position)
-TAGS = {"S": [11, 12, 13], "x": [21, 22, 23], "I": [31, 32, 33], "arg": [41, 42, 43], "f": [51, 52, 53], "E": [61, 62, 63], "RED": [71, 72, 73], "O": [81, 82, 83], "earg": [91, 92, 93]}
+TAGS = {"S": [11, 12, 13], "x": [21, 22, 23], "I": [31, 32, 33], "arg": [41, 42, 43], "f": [51, 52, 53], "E": [61, 62, 63], "RED": [71, 72, 73], "O": [81, 82, 83], "earg": [91, 92, 93], "garg": [94, 95, 96]}
 
 
 def names_of(k):
@@ -87,8 +87,8 @@ interface IO { n: S }
 type O implements IO %s { n: S }
 type P implements IO { n: S }
 union UO = O | P
-type Query { f(i: I %s): S %s  e(c: Color %s): Color  o: O  io: IO  uo: UO  ios: [IO] }
-""" % (dirs("S", k), dirs("E", k), dirs("RED", k), dirs("I", k), dirs("x", k), dirs("O", k), dirs("arg", k), dirs("f", k), dirs("earg", k))
+type Query { f(i: I %s): S %s  e(c: Color %s): Color  o: O  io: IO  uo: UO  ios: [IO]  g(x: S = 7 %s): S }
+""" % (dirs("S", k), dirs("E", k), dirs("RED", k), dirs("I", k), dirs("x", k), dirs("O", k), dirs("arg", k), dirs("f", k), dirs("earg", k), dirs("garg", k))
 
 
 ENGS = {}
@@ -107,6 +107,11 @@ for _k in range(6):
     async def _re(parent, args, ctx, info):
         LOG.append(("resolver-e", args.get("c")))
         return args.get("c")
+
+    @Resolver("Query.g", schema_name=_name)
+    async def _rg(parent, args, ctx, info):
+        LOG.append(("resolver-g", args.get("x")))
+        return args.get("x")
 
     @Resolver("Query.o", schema_name=_name)
     async def _ro(parent, args, ctx, info):
@@ -305,6 +310,60 @@ def c13_merged(v: int, n1: int, n2: int) -> bool:
     seen, val, elog = expected(k, 0, v, n1, n2, qlist=[(n, vals[n]) for n in got_q])
     observe(("expected", seen, val, elog))
     return verdict(r["data"]["f"] == val and same_log(log, elog))
+
+
+# ---- an argument that takes its SCHEMA DEFAULT (omitted, or bound to a variable without runtime value) goes through the same hooks as a supplied one
+GDOCS = ["{ g }", "query Q($x: S) { g(x: $x) }", "{ g(x: 1000001) }", "query Q($x: S) { g(x: $x) }"]
+GASTS = [gqlfront.parse(t) for t in GDOCS]
+
+
+@obligation(tier="quick", timeout=120, shards=[{"k": k} for k in range(6)],
+            samples=[{"v": 3, "mode": 0}, {"v": -1, "mode": 1}, {"v": 7, "mode": 2}, {"v": 0, "mode": 3}],
+            symbolic=["v: int (unbounded) — the supplied value (modes 2, 3)"],
+            selectors=["mode: argument omitted / bound to a variable without runtime value (both take the schema default 7) / literal / provided variable", "shard: directives per element"],
+            bounds="6 schemas x 4 supply modes",
+            note="a defaulted argument: type-level input hooks, then the argument's hooks (declaration order, each exactly once), then the resolver, then the output hooks — identically whether the "
+                 "value is the schema default, a literal or a variable")
+def c13_default_arg(v: int, mode: int) -> bool:
+    """
+    post: _
+    """
+    k = shard()["k"]
+    mode = pick(mode, 4)
+    NM = names_of(k); n = len(NM)
+    val = 7 if mode in (0, 1) else v
+    ast = GASTS[mode]
+    if mode == 2:
+        ast = subst_int(ast, v)
+    variables = {"x": v} if mode == 3 else {}
+    del LOG[:]
+    old = env.FFI._parse_to_json_ast
+    env.FFI._parse_to_json_ast = lambda q: ast
+    try:
+        ok, r = safe(lambda: env.run(ENGS[k].execute(GDOCS[mode], variables=variables)))
+    finally:
+        env.FFI._parse_to_json_ast = old
+    log = list(LOG)
+    observe(r, log)
+    if not ok or r.get("errors"):
+        return verdict(False)
+    elog = []
+    for j, t in enumerate(TAGS["S"][:n]):
+        elog.append(("in>", NM[j], t))
+    for j in range(n - 1, -1, -1):
+        elog.append(("in<", NM[j], TAGS["S"][j]))
+        val = ap(val, TAGS["S"][j])
+    for j, t in enumerate(TAGS["garg"][:n]):
+        elog.append(("arg>", NM[j], t))
+    for t in reversed(TAGS["garg"][:n]):
+        val = ap(val, t)
+    elog.append(("resolver-g", val))
+    for j, t in enumerate(TAGS["S"][:n]):
+        elog.append(("out>", NM[j], t))
+    for t in reversed(TAGS["S"][:n]):
+        val = ap(val, t)
+    observe(("expected", val, elog))
+    return verdict(r["data"]["g"] == val and same_log(log, elog))
 
 
 @obligation(tier="quick", timeout=120, shards=[{"k": k} for k in range(6)],
